@@ -260,6 +260,9 @@ func c13WireGen(g *hx.Gen) {
 }
 
 func init() {
+	// the deterministic lock-step streams first: they report before the parallel ones
+	c13RegisterOverlap()
+	c13RegisterWOverlap()
 	hx.Register(&hx.Stream{ID: "C13", Name: "c13.wire", Gen: c13WireGen,
 		Eval: func(f []string) (string, []string) {
 			id, _ := strconv.Atoi(f[0])
